@@ -32,6 +32,7 @@ CONSTANTS
   AttBound,       \* state constraint: largest attempt count explored
   ViewKeep,       \* which timestamps the exhaustive VIEW keeps (see View)
   Weights,        \* generation only: operation name -> weight (see GenNext)
+  GenBFS,         \* generation by exhaustive enumeration of all histories of length Depth (TLC BFS) instead of -simulate
   AckAll          \* TRUE: Ack/ModAck/Nack may name any delivery; FALSE: only delivered ones
 
 VARIABLES S, ev, hist, cls
@@ -215,11 +216,17 @@ SeekApply(s, wantOut(_)) ==
                ELSE r
           ELSE IF r.done = -1 THEN [r EXCEPT !.done = S.now] ELSE r]
 
-SeekTime(snm, T) ==
-  LET e == [op |-> "SeekTime", sub |-> snm, T |-> T] X == SubsNamed(S, snm) IN
+SeekTimeM(snm, T, m) ==
+  LET X == SubsNamed(S, snm)
+      e == [op |-> "SeekTime", sub |-> snm, T |-> T, m |-> m,
+            le |-> SeqOfSet({d \in Dels(S) : d[2] \in X /\ S.del[d].pub <= T})] IN
   IF X = {} THEN Fail(e, "NotFound")
   ELSE LET s == Pick(X) W(d) == S.del[d].pub > T IN
        OK(e, [S EXCEPT !.del = SeekApply(s, W)])
+
+SeekTime(snm, T) == SeekTimeM(snm, T, 0)
+\* seek to exactly the publish time of message m (boundary case: "at or before")
+SeekTimeAt(snm, m) == SeekTimeM(snm, S.msgs[m].pub, m)
 
 CreateSnap(nm, snm) ==
   LET e == [op |-> "CreateSnap", name |-> nm, sub |-> snm] X == SubsNamed(S, snm) IN
@@ -325,6 +332,10 @@ SetupStep ==
 SeekTargets == IF S.now <= 8 THEN 0..(S.now + 1)
                ELSE {0, S.now + 1} \cup {S.now - k : k \in {0, 1, 2, 4, 7}}
 
+SeekAny ==
+  \/ \E nm \in SubNames, T \in SeekTargets : SeekTime(nm, T)
+  \/ \E nm \in SubNames, m \in DOMAIN S.msgs : SeekTimeAt(nm, m)
+
 \* -simulate: when the history has Depth requests, print it once and stop
 Emit == /\ PrintT(<<"SCENARIO", ToJson(hist)>>)
         /\ hist' = Append(hist, [op |-> "End"]) /\ UNCHANGED <<S, ev>>
@@ -345,7 +356,7 @@ OpNext(op) ==
     [] op = "Ack" -> \E nm \in SubNames, q \in IdSeqs : Ack(nm, q)
     [] op = "ModAck" -> \E nm \in SubNames, q \in IdSeqs, x \in ModSecs : ModAck(nm, q, x)
     [] op = "Nack" -> \E q \in IdSeqs : Nack(q)
-    [] op = "SeekTime" -> \E nm \in SubNames, T \in SeekTargets : SeekTime(nm, T)
+    [] op = "SeekTime" -> SeekAny
     [] op = "CreateSnap" -> \E n \in SnapNames, nm \in SubNames : CreateSnap(n, nm)
     [] op = "DeleteSnap" -> \E n \in SnapNames : DeleteSnap(n)
     [] op = "SeekSnap" -> \E n \in SnapNames, nm \in SubNames : SeekSnap(nm, n)
@@ -371,7 +382,7 @@ GenNext ==
 Next ==
   IF Depth > 0 /\ Len(hist) >= Depth THEN (Len(hist) = Depth /\ Emit /\ cls' = cls) ELSE
   IF S.ph < Len(Setup) THEN SetupStep /\ cls' = cls ELSE
-  IF Depth > 0 THEN GenNext ELSE (\E op \in Ops : OpNext(op)) /\ cls' = cls
+  IF Depth > 0 /\ ~GenBFS THEN GenNext ELSE (\E op \in Ops : OpNext(op)) /\ cls' = cls
 
 Spec == Init /\ [][Next]_vars
 
@@ -379,7 +390,7 @@ Spec == Init /\ [][Next]_vars
 (* Properties checked by TLC on the model.                                 *)
 
 \* every transition of the model satisfies every clause of the contract
-StepOK == V(S, ev', S') = {}
+StepOK == V(S, ev', S') \cup VGeneric(S, ev', S') = {}
 StepProp == [][StepOK]_vars
 InvOK == Inv(S) = {}
 
@@ -396,13 +407,13 @@ OneLivePerName ==
        (S.subs[a].live /\ S.subs[b].live /\ S.subs[a].name = S.subs[b].name) => a = b
 \* C01: an outstanding delivery only disappears for one of the listed reasons
 Out(X, t) == {d \in Dels(X) : OutDef(X, d, t)}
-Retired(d) ==
+RetiredM(d) ==
   \/ ev'.op = "Ack" /\ d \in RangeOf(ev'.ids)
   \/ ev'.op \in {"Pull", "Nack", "DLSweep"} /\ DLable(S, d)
   \/ ev'.op \in {"DeleteSub", "ExpireSubs"} /\ ~SubLive(S', d[2])
   \/ ev'.op \in {"SeekTime", "SeekSnap"} /\ SubsNamed(S, ev'.sub) = {d[2]}
   \/ ev'.op = "Tick" /\ S.del[d].exp <= S'.now
-NoLoss == [][\A d \in Out(S, S.now) : d \in Out(S', S'.now) \/ Retired(d)]_vars
+NoLoss == [][\A d \in Out(S, S.now) : d \in Out(S', S'.now) \/ RetiredM(d)]_vars
 \* C05: no pull returns a keyed message while an earlier same-key message of
 \* that ordered subscription is outstanding
 OrderKept ==
